@@ -59,6 +59,21 @@ META = {
 }
 
 IMPORTS = ["Lib.Hex", "Lib.FileSys", "Model.Crash"]
+# configurations a crashed node may be restarted with; the cleanup of incoming/ and
+# everything read back afterwards must not depend on them
+RESTART_CONFIGS = [
+    {},
+    {"readonly_storage": True},
+    {"reserved_space": 10 ** 6},
+    {"readonly_storage": True, "reserved_space": 10 ** 6},
+    {"discard_storage": True},
+]
+
+
+def restart_config(j, n):
+    return RESTART_CONFIGS[(3 * j + n) % len(RESTART_CONFIGS)]
+
+
 KNOWN_KIND = "immutable-add-lease-crash-between-record-and-count-extends-data"
 
 NSI = 4            # storage indexes 0,1 immutable; 2,3 mutable
@@ -594,6 +609,47 @@ class Interner(object):
             self.defs.append("Definition %s : %s := %s." % (name, ty, term))
         return self.names[key]
 
+    def state(self, hist):
+        """Name of the model state after the operations `hist` (a tuple of named
+        sop terms), computed once per prefix as a finite table."""
+        hist = tuple(hist)
+        if not hist:
+            return "(@empty_fs path)"
+        key = ("s", hist)
+        if key not in self.names:
+            prev = self.state(hist[:-1])
+            n = len(self.names)
+            self.names[key] = "c29s%d" % n
+            self.defs.append("Definition c29t%d : list (path * file) := Eval vm_compute in (step_table %s %s)." % (n, prev, hist[-1]))
+            self.defs.append("Definition c29s%d : state := state_of_table c29t%d." % (n, n))
+        return self.names[key]
+
+    NAME = re.compile(r"\bc29[bvost]\d+\b")
+
+    def preamble_for(self, terms):
+        """Only the definitions the given terms (transitively) refer to, in
+        definition order."""
+        index = {}
+        for pos, d in enumerate(self.defs):
+            index[d.split()[1]] = (pos, d)
+        need = set()
+        todo = [n for t_ in terms for n in self.NAME.findall(t_)]
+        while todo:
+            n = todo.pop()
+            if n in need or n not in index:
+                continue
+            need.add(n)
+            body = index[n][1].split(":=", 1)[1]
+            todo += self.NAME.findall(body)
+        return "\n".join(d for _, d in sorted(index[n] for n in need))
+
+    def order_key(self, term):
+        ss = [int(x[4:]) for x in self.NAME.findall(term) if x.startswith("c29s")]
+        if ss:
+            return min(ss)
+        xs = [int(re.sub(r"\D", "", x)) for x in self.NAME.findall(term)]
+        return min(xs) if xs else -1
+
     def preamble(self):
         return "\n".join(self.defs)
 
@@ -957,16 +1013,17 @@ class Runner(object):
             w.try_execute(op)
         return w, hist
 
-    def restart(self, w):
+    def restart(self, w, config=None):
         """Drop everything, create a fresh server on the same directory; returns
-        (server, low-level calls of the restart)."""
+        (server, low-level calls of the restart).  `config`: the configuration the
+        operator restarts the node with (it need not be the one it crashed with)."""
         from allmydata.storage.server import StorageServer
         clock = w.clock
         base = w.base
         w.drop()
         inj = Injector()
         _cur[0] = inj
-        ss = StorageServer(base, NODEID, clock=clock)
+        ss = StorageServer(base, NODEID, clock=clock, **(config or {}))
         return ss, inj.log
 
     def run_workload(self, wname, ops, restart_crashes=False):
@@ -1008,7 +1065,7 @@ class Runner(object):
             except ValueError as e:
                 ctx.oracle_fail("operation-touches-unexpected-path", str(e), case={"workload": ops, "j": j})
                 log_terms = []
-            self.ops_terms.append(("check_ops %s %s %s" % (T.lst(hist), term, T.lst(log_terms)),
+            self.ops_terms.append(("check_ops_at %s %s %s" % (_I[0].state(hist), term, T.lst(log_terms)),
                                    {"workload": wname, "j": j, "op": op, "calls": [jev(w, e) for e in vis], "exception": exc}))
             ref.append({"pre": pre, "term": term, "hist": list(hist), "total": total, "exc": exc, "inprog": inprog,
                         "nvis": len(vis), "calls": list(w.inj.log)})
@@ -1039,9 +1096,11 @@ class Runner(object):
                 last = w.inj.log[-1][0] if w.inj.log else "start"
                 inprog_after = {kk: dict(v) for kk, v in w.inprogress.items()}
                 # crash points inside the restart itself (sampled workloads)
-                ss, rlog = self.restart(w)
+                cfg = restart_config(j, n)
+                ss, rlog = self.restart(w, cfg)
                 post, problems = observe(ss)
-                case = {"workload": ops, "j": j, "n": n, "completed_calls": k, "after": last, "op": op}
+                ctx.count("restart-config:" + (",".join(sorted(cfg)) or "default"))
+                case = {"workload": ops, "j": j, "n": n, "completed_calls": k, "after": last, "op": op, "restart_config": cfg}
                 for p in problems:
                     ctx.oracle_fail("public-api-inconsistent", p, case=case)
                 self.oracle(op, R, post, rlog, w, case, crashed)
@@ -1063,7 +1122,7 @@ class Runner(object):
                 if (restart_crashes and any(ev[0] == "unlink" for ev in rlog)
                         and (ctx.tier == "thorough" or ctx.stats["crash-points:restart"] < 120)):
                     # the restart had something to clean: crash it too
-                    self.restart_crashes(ops, j, n, post, rlog)
+                    self.restart_crashes(ops, j, n, post, rlog, cfg)
                 shutil.rmtree(w.base, ignore_errors=True)
                 del ss
 
@@ -1080,7 +1139,7 @@ class Runner(object):
             if pre[key][0] == "mut" and kind == "mutable-write" and v[1] != pre[key][1]:
                 self.ctx.count("observed:mutable-written-share-data-differs-after-crash")
 
-    def restart_crashes(self, ops, j, n, clean_post, rlog):
+    def restart_crashes(self, ops, j, n, clean_post, rlog, cfg=None):
         """Crash the restart itself after each of its low-level calls, restart
         again, compare with the clean restart."""
         from allmydata.storage.server import StorageServer
@@ -1097,20 +1156,21 @@ class Runner(object):
             inj = Injector()
             inj.arm(m)
             _cur[0] = inj
+            cfg2 = restart_config(j, n + 1 + m)       # the second restart may use yet another configuration
             try:
-                StorageServer(base, NODEID, clock=clock)
+                StorageServer(base, NODEID, clock=clock, **(cfg or {}))
             except Crash:
                 pass
             _cur[0] = Injector()
-            ss = StorageServer(base, NODEID, clock=clock)
+            ss = StorageServer(base, NODEID, clock=clock, **cfg2)
             post, _ = observe(ss)
             ctx.count("crash-points:restart")
             ctx.case(("restart", j, n, m), kind="restart")
             inc = os.path.join(base, "shares", "incoming")
-            if post != clean_post or os.listdir(inc):
+            if post != clean_post or (os.path.isdir(inc) and os.listdir(inc)):
                 ctx.oracle_fail("crash-during-restart-changes-outcome",
                                 "a crash after call %d of the restart, followed by another restart, differs from a clean restart" % m,
-                                case={"workload": ops, "j": j, "n": n, "m": m},
+                                case={"workload": ops, "j": j, "n": n, "m": m, "restart_config": cfg, "second_restart_config": cfg2},
                                 expected={"%d/%d" % kk: jview(v) for kk, v in clean_post.items() if v != ABSENT},
                                 observed={"%d/%d" % kk: jview(v) for kk, v in post.items() if v != ABSENT})
             shutil.rmtree(base, ignore_errors=True)
@@ -1160,7 +1220,7 @@ class Runner(object):
                     ctx.oracle_fail("lease-operation-changed-share-data",
                                     "%s changed the data of share %d/%d (crash point %d + restart)" % (k, key[0], key[1], case["n"]),
                                     case=case, expected=show(v0), observed=show(v1))
-            self.window_terms.append(("Bool.eqb (check_window %s %s %s) %s" % (T.lst(R["hist"]), R["term"], T.nat(case["completed_calls"]),
+            self.window_terms.append(("Bool.eqb (check_window_at %s %s %s) %s" % (_I[0].state(R["hist"]), R["term"], T.nat(case["completed_calls"]),
                                                                                T.boolean(window_hit)), case))
         # (3) an immutable share is either absent or complete; (4) uploads in progress are discarded
         inc = os.path.join(w.base, "shares", "incoming")
@@ -1408,7 +1468,9 @@ def http_history(ctx, hist, tag):
     clock = store.clock
     del store, imm
     _cur[0] = Injector()
-    ss2 = StorageServer(base, NODEID, clock=Clock())
+    cfg = RESTART_CONFIGS[(len(seq) + size) % len(RESTART_CONFIGS)]
+    case["restart_config"] = cfg
+    ss2 = StorageServer(base, NODEID, clock=Clock(), **cfg)
     judge(ss2, "after kill + restart", True)
     inc = os.path.join(base, "shares", "incoming")
     left = [os.path.join(r_, f) for r_, _, fs in os.walk(inc) for f in fs]
@@ -1519,7 +1581,7 @@ def compare_with_model(ctx, runner):
         g = runner.state_groups[key]
         nstates += len(g)
         obs = T.lst(["(%s, %s)" % (T.nat(k), obs_term(g[k][0])) for k in sorted(g)])
-        batch.append(("check_states %s %s %s" % (T.lst(list(hist)), term, obs), lambda key=key: group_bad(key)))
+        batch.append(("check_states_at %s %s %s" % (_I[0].state(hist), term, obs), lambda key=key: group_bad(key)))
 
     def win_bad(case):
         ctx.mismatch("add-lease-window-differs-from-model",
@@ -1536,9 +1598,26 @@ def compare_with_model(ctx, runner):
     for term, info in runner.extra_terms:
         batch.append((term, lambda info=info: wit_bad(info)))
 
-    pre = _I[0].preamble()
-    bad = ctx.coq_check(IMPORTS, [b[0] for b in batch], preamble=pre, tag="c29", shard=max(20, (len(batch) + 7) // 8))
-    for ix in bad:
+    # terms of one workload refer to the same named states and constants: sort by the
+    # first state a term refers to, cut into groups, give each group only its own
+    # definitions, evaluate the groups in parallel
+    import concurrent.futures
+    order = sorted(range(len(batch)), key=lambda i: (_I[0].order_key(batch[i][0]), i))
+    ngroups = 8
+    size = max(10, -(-len(order) // ngroups))
+    groups = [order[i:i + size] for i in range(0, len(order), size)]
+
+    def one(gi):
+        ixs = groups[gi]
+        terms = [batch[i][0] for i in ixs]
+        failing = ctx.coq_check(IMPORTS, terms, preamble=_I[0].preamble_for(terms), tag="c29g%d" % gi, shard=len(terms) + 1)
+        return [ixs[f] for f in failing]
+
+    bad = []
+    with concurrent.futures.ThreadPoolExecutor(max_workers=8) as ex:
+        for res in ex.map(one, range(len(groups))):
+            bad += res
+    for ix in sorted(bad):
         batch[ix][1]()
     nbad = len(bad)
     # which crash point of a disagreeing group?
@@ -1553,12 +1632,13 @@ def compare_with_model(ctx, runner):
         hist, term = key
         g = runner.state_groups[key]
         ks = sorted(g)
-        single = ["check_state %s %s %s %s" % (T.lst(list(hist)), term, T.nat(k), obs_term(g[k][0])) for k in ks]
-        for jx in ctx.coq_check(IMPORTS, single, preamble=_I[0].preamble(), tag="c29one", shard=40):
+        single = ["check_state_at %s %s %s %s" % (_I[0].state(hist), term, T.nat(k), obs_term(g[k][0])) for k in ks]
+        for jx in ctx.coq_check(IMPORTS, single, preamble=_I[0].preamble_for(single), tag="c29one", shard=40):
             post, case = g[ks[jx]]
             present = [kk for kk in sorted(post) if post[kk] != ABSENT] or [(0, 0)]
-            predicted = ctx.coq_eval(IMPORTS, "let s := run_sops %s empty_fs in map (fun p => view_of (recover (run_p (firstn %s (plain_ops %s s)) s) p)) %s" % (
-                T.lst(list(hist)), T.nat(ks[jx]), term, T.lst(["(Final %d %d)" % kk for kk in present])), preamble=_I[0].preamble())
+            predicted = ctx.coq_eval(IMPORTS, "let s := %s in map (fun p => view_of (recover (run_p (firstn %s (plain_ops %s s)) s) p)) %s" % (
+                _I[0].state(hist), T.nat(ks[jx]), term, T.lst(["(Final %d %d)" % kk for kk in present])),
+                preamble=_I[0].preamble_for([_I[0].state(hist), term]))
             ctx.mismatch("post-crash-state-differs-from-model",
                          "after crash point %d of operation %d (%s) + restart the public API shows a state the model does not predict" % (
                              case["n"], case["j"], case["op"]["op"]),
@@ -1607,9 +1687,12 @@ def replay(ctx, rec):
         k = len(w.visible_log())
         calls = [jev(w, e) for e in w.inj.log]
         last = w.inj.log[-1][0] if w.inj.log else "start"
-        ss, rlog = runner.restart(w)
+        cfg = case.get("restart_config")
+        if cfg is None:
+            cfg = restart_config(j, n)
+        ss, rlog = runner.restart(w, cfg)
         post, _ = observe(ss)
-        c2 = {"workload": ops, "j": j, "n": n, "completed_calls": k, "after": last, "op": ops[j]}
+        c2 = {"workload": ops, "j": j, "n": n, "completed_calls": k, "after": last, "op": ops[j], "restart_config": cfg}
         runner.oracle(ops[j], {"pre": pre, "term": term, "hist": hist, "total": total, "inprog": inprog, "calls": ref_calls}, post, rlog, w, c2, crashed)
         shutil.rmtree(w.base, ignore_errors=True)
         return {"operation": ops[j], "calls_completed_before_the_crash": calls, "crashed": crashed,
